@@ -71,6 +71,9 @@ def same_args(ctx, name: str, track: str) -> None:
     T, F = T[0], F[0]
     tb, fb = fv.bind_args(T) or {}, fv.bind_args(F) or {}
     w = f.where(F.call)
+    if any(k in b_ for b_ in (tb, fb) for k in ("*", "**")):
+        ctx.rep.inconclusive(rule, f"{f.qualname}", "arguments are passed with * / ** whose contents cannot be enumerated", where=w)
+        return
     recv = T.call.func.value.id if isinstance(T.call.func, ast.Attribute) and isinstance(T.call.func.value, ast.Name) else None
     ctx.rep.check(recv == "labware", rule, f"{f.qualname}/tracked-labware", "the tracking is booked on `labware`", f"the tracking is booked on `{recv}`", where=f.where(T.call))
     pairs = (("wells", "wells", "wells"), ("volumes", "volume", "volumes"))
@@ -570,6 +573,25 @@ def asp_template(ctx, name: str) -> None:
 
     pops = [cs for v_ in with_helpers(ctx, fv) for cs in v_.calls() if isinstance(cs.call.func, ast.Attribute) and cs.call.func.attr == "pop"]
     ok_pop = len(pops) == 1 and pops[0].call.args and isinstance(pops[0].call.args[0], ast.Constant) and pops[0].call.args[0].value == 0
+    if not pops:
+        # the same traversal with a running index: k = 0 before the slot loop; "{volume[k]}" and k += 1 on the selected branch
+        for v_ in with_helpers(ctx, fv):
+            for n_ in v_.cfg.nodes:
+                if n_.kind != "stmt" or not isinstance(n_.ast, ast.AugAssign) or not isinstance(n_.ast.value, ast.JoinedStr):
+                    continue
+                loops_ = [h for h in v_.cfg.enclosing_loops(n_.id) if v_.cfg.nodes[h].kind == "for"]
+                subs_ = [x for x in ast.walk(n_.ast.value) if isinstance(x, ast.Subscript) and isinstance(x.slice, ast.Name)]
+                if len(loops_) != 1 or len(subs_) != 1:
+                    continue
+                k_ = subs_[0].slice.id
+                body_ = v_.cfg.loop_body[loops_[0]]
+                defs_ = [m for m in v_.cfg.nodes if m.kind == "stmt" and ((isinstance(m.ast, ast.Assign) and is_name(m.ast.targets[0], k_)) or (isinstance(m.ast, ast.AugAssign) and is_name(m.ast.target, k_)))]
+                init_ = [m for m in defs_ if isinstance(m.ast, ast.Assign)]
+                incs_ = [m for m in defs_ if isinstance(m.ast, ast.AugAssign)]
+                if len(init_) == 1 and len(incs_) == 1 and isinstance(init_[0].ast.value, ast.Constant) and init_[0].ast.value.value == 0 and not v_.cfg.enclosing_loops(init_[0].id) \
+                        and v_.cfg.dominates(init_[0].id, loops_[0]) and incs_[0].id in body_ and isinstance(incs_[0].ast.op, ast.Add) and isinstance(incs_[0].ast.value, ast.Constant) and incs_[0].ast.value.value == 1 \
+                        and v_.controlling(incs_[0].id, within=body_) == v_.controlling(n_.id, within=body_) and v_.cfg.dominates(n_.id, incs_[0].id) and v_.cfg.enclosing_loops(incs_[0].id) == v_.cfg.enclosing_loops(n_.id):
+                    ok_pop = True
     ctx.rep.check(ok_pop, rule, f"{f.qualname}/volume-order", "volumes are consumed front to back, one per selected slot", "the per-tip volumes are not consumed front to back (pop(0)) once per selected slot", where=w)
     # the mask fold is unconditional over all validated tips
     mask_views = with_helpers(ctx, fv)
